@@ -247,14 +247,24 @@ func colScenario(r *vk.Run, kind string, withInit bool, steps []step, bp bool, u
 	desc := fmt.Sprintf("%s/%s init=%v %s", kind, mode, withInit, renderSteps(steps))
 	replay := map[string]any{"kind": kind, "init": withInit, "steps": steps, "bp": bp, "updatesOnly": updatesOnly}
 	ro := []resource.ReadOption{resource.WithUpdatesOnly(updatesOnly)}
+	// how the mode is asked for varies with the history (spread over all lengths): given twice, given once, not at all
+	hv := len(steps)
+	for i, st := range steps {
+		hv += (i + 1) * (len(st.Op) + len(st.ID))
+	}
+	if withInit {
+		hv++
+	}
 	switch {
-	case len(steps)%3 == 0:
+	case hv%3 == 0:
 		// the option given twice: like every option of this package the later one decides
 		ro = append(ro, resource.WithBackpressure(!bp), resource.WithBackpressure(bp))
 		r.Count("subscribers-with-backpressure-option-overridden", 1)
-	case bp || len(steps)%2 == 0:
+	case bp || hv%3 == 1:
 		ro = append(ro, resource.WithBackpressure(bp))
-	} // else: no backpressure option at all, the documented default is "off"
+	default: // no backpressure option at all, the documented default is "off"
+		r.Count("subscribers-without-backpressure-option", 1)
+	}
 	if kind == "pull" {
 		c.runCol(col.Pull(ctx, ro...))
 	} else {
